@@ -92,6 +92,7 @@ class Engine:
         s.trace = os.environ.get("MIRSYM_TRACE") == "1"
         s.fresh_n = 0
         s.pc = []
+        s.opaque_terms = {}
         import models, models_pallas
         models.register(s)
         models_pallas.register(s)
@@ -1061,6 +1062,14 @@ class Engine:
             return len(v.items)
         if isinstance(v, StrM):
             return len(v.bytes)
+        if isinstance(v, Opaque):
+            # length of an uninterpreted encoding: an arbitrary usize below 2^32 (one per value)
+            key = ("len", repr(v))
+            if key not in s.opaque_terms:
+                s.opaque_terms[key] = z3.BitVec("len!%d" % len(s.opaque_terms), 64)
+            t = s.opaque_terms[key]
+            s._add_pc(z3.ULT(t, z3.BitVecVal(1 << 32, 64)))
+            return t
         raise Unmodelled("length of %s" % type(v).__name__)
 
     # ------------------------------------------------------------------ execution
@@ -1088,7 +1097,13 @@ class Engine:
                     print("   ", fn.name.split("::")[-1], bb, st[:140])
                 try:
                     r = s.exec_stmt(frame, ast, st)
-                except (Panic, Infeasible, StepLimit):
+                except Panic as p:
+                    if not getattr(p, "fn", None):
+                        p.fn = fn.name
+                        # stable site name: module + item path without source positions
+                        p.site = re.sub(r"<impl at [^>]*>", "<impl>", fn.name)
+                    raise
+                except (Infeasible, StepLimit):
                     raise
                 except Unmodelled as e:
                     if not getattr(e, "_loc", None):
@@ -1145,7 +1160,7 @@ class Engine:
         if m:
             return ("yield", s.parse_operand(m.group(2)), m.group(3))
         # call terminators
-        m = re.match(r"(?:(.*?) = )?(.*)\) -> (\[return: (bb\d+).*|unwind.*)$", st, re.S)
+        m = re.match(r"(?:(.*?) = )?(.*)\) -> (\[return: (bb\d+).*|unwind.*|bb\d+)$", st, re.S)
         if m and "(" in m.group(2) and not m.group(2).lstrip().startswith(("move ", "copy ", "const ", "&")):
             dest = m.group(1)
             call = m.group(2)
